@@ -357,4 +357,31 @@ stores under `name_`: `orig` = `TRAIT_SETATTR_ORIGINAL_VALUE` (AdaptsTo),
 def stored (orig : Bool) (v : VOut α) : VOut α := if orig then .value else v
 def shadow (postOrig : Bool) (v : VOut α) : VOut α := if postOrig then .value else v
 
+/-! ## Re-assignment: `setattr_trait` (ctraits.c 2445-2541) over a history
+
+An adapting trait with a `post_setattr` (Supports, AdaptsTo) keeps two slots in the
+instance dict: `name` and the shadow `name_`.  `post_setattr` runs only when
+`changed`, and `changed = (old_value != value)` compares — by identity — the value
+*stored* so far with the *validated* new value (:2516-2518). -/
+
+structure Slots (β : Type) where
+  stored : β
+  shadow : Option β
+  deriving DecidableEq, Repr
+
+/-- One successful assignment.  `old` = the current slots, `none` when `name` is not in
+the instance dict yet: then the trait's default value `dflt` is created, stored and
+handed to `post_setattr` first (:2487-2509).  `same` is object identity; `original`
+the assigned object, `validated` what the validator returned for it. -/
+def assignSlots {β : Type} (orig postOrig : Bool) (same : β → β → Bool) (old : Option (Slots β))
+    (dflt original validated : β) : Slots β :=
+  let old' : Slots β :=
+    match old with
+    | some s => s
+    | none => { stored := dflt, shadow := some dflt }
+  let changed := !(same old'.stored validated)                       -- :2516-2518
+  { stored := if orig then original else validated                   -- :2471, :2521
+    shadow := if changed then some (if postOrig then original else validated)   -- :2534-2541
+              else old'.shadow }
+
 end TraitsVerif.Model.Adapt
